@@ -139,9 +139,7 @@ Proof.
     assert (Hcne : c <> nid (tr s)).
     { rewrite <- Hnc. eapply child_not_root; eauto. eapply nth_error_In; eauto. }
     destruct (NE _ _ Hfc) as [NE1 NE2]. specialize (NE2 Hcne).
-    assert (Hsep : exists sep', (if index =? 0 then sm <- ismallest child;; Ok (if ltb (key_of o) sm then key_of o else sep) else Ok sep) = Ok sep').
-    { destruct (index =? 0); [|eauto]. destruct (ismallest_total K V child NE2) as [sm ->]. cbn [bind]. eauto. }
-    destruct Hsep as [sep' ->]. cbn [bind].
+    remember (if index =? 0 then (if ltb (key_of o) sep then key_of o else sep) else sep) as sep' eqn:Hsep.
     destruct (nth_error_split cs index Hg) as [A [B [E L]]].
     destruct (isplit order (fresh s) child) as [[l r]|] eqn:Hsp.
     + destruct (isplit_counts order _ _ _ _ Hev Hsp) as (C1 & C2 & C3 & C4).
